@@ -24,3 +24,6 @@ Fixpoint unpack (ws : list int) (last : nat) : string :=
 Example unpack_ok :
   unpack [29099075147620729%uint63; 139442745956%uint63] 5 = "gateway word"%string.
 Proof. vm_compute. reflexivity. Qed.
+
+(** [n] copies of byte [c] (bodies of more than a megabyte are not listed) *)
+Definition srep (c : N) (n : N) : string := N.iter n (String (ascii_of_N c)) EmptyString.
